@@ -121,6 +121,8 @@ def expected_class(tp: AnyType) -> type:
         return NoneType
     elif is_typed_dict(origin):
         return collections.abc.Mapping
+    elif is_type_var(origin) or origin is Any:  # typing.Any is a class since 3.11
+        return object
     elif is_type(origin):
         return origin
     elif is_new_type(origin):
